@@ -176,6 +176,14 @@ func (l AbstractListSchema[ItemType]) ValidateCompatibility(typeOrData any) erro
 	}
 	// Note: Not currently bothering with validating min and max fields
 	// Validate the list sub-type
+	otherMin, _ := listSchemaField.FieldByName("MinValue").Interface().(*int64)
+	otherMax, _ := listSchemaField.FieldByName("MaxValue").Interface().(*int64)
+	if (l.MaxValue != nil && otherMin != nil && (*otherMin) > (*l.MaxValue)) ||
+		(l.MinValue != nil && otherMax != nil && (*otherMax) < (*l.MinValue)) {
+		return &ConstraintError{
+			Message: "mutually exclusive lengths between list schemas",
+		}
+	}
 	return l.ItemsValue.ValidateCompatibility(itemType)
 }
 
